@@ -41,6 +41,8 @@ def run_check(prop, tier, seed):
                 got = summ.get(m_, {})
                 for d_ in expd.get(m_, {}).get('proved', []):
                     if d_ not in got.get('proved', {}):
+                        if d_ not in got.get('no_law', {}) and d_ in expd.get(m_, {}).get('optional', []):
+                            continue        # a renamed / inlined local: the attributes computed from it keep their own laws
                         why = got.get('no_law', {}).get(d_, 'definition no longer generated')
                         broken.append(dict(kind='equivariance-law-lost', what='Gen.%s.%s' % (m_, d_), detail=str(why)[:300]))
                 for d_, why in got.get('spec_mismatch', {}).items():
